@@ -328,7 +328,7 @@ def main():
             # the whole grid when the proof is undecided, when an obligation failed, and in the thorough tier
             full = bool(undecided or pre_viol or a.tier == 'thorough')
             try:
-                grid_res = gridrun.run(pid, spec['grid'], a.repo, workdir, stride=1 if full else int(os.environ.get('VERIF_GRID_QUICK_STRIDE', '8')))
+                grid_res = gridrun.run(pid, spec['grid'], a.repo, workdir, stride=1 if full else int(os.environ.get('VERIF_GRID_QUICK_STRIDE', str(spec['grid'].get('quick_stride', 8)))))
             except gridrun.Undecided as e:
                 grid_undecided = str(e)
     finally:
